@@ -56,6 +56,22 @@ pub proof fn lemma_eff_is_latest_at_or_before(s: Storage, a: Seq<char>, lp: Seq<
     if e > l { lemma_eff_is_latest_at_or_before(s, a, lp, l, (e - 1) as u64); }
 }
 
+/// the two states hold the same snapshots for (a, lp)
+pub open spec fn same_history(s0: Storage, s1: Storage, a: Seq<char>, lp: Seq<char>) -> bool {
+    forall|k: u64| (#[trigger] s1.weights@.dom().contains((a, lp, k)) == s0.weights@.dom().contains((a, lp, k)))
+        && (s0.weights@.dom().contains((a, lp, k)) ==> s1.weights@[(a, lp, k)] == s0.weights@[(a, lp, k)])
+}
+/// the effective weight of (a, lp) only depends on that pair's snapshots
+pub proof fn lemma_eff_frame(s0: Storage, s1: Storage, a: Seq<char>, lp: Seq<char>, e: u64)
+    requires same_history(s0, s1, a, lp),
+    ensures eff_weight(s1, a, lp, e) == eff_weight(s0, a, lp, e),
+    decreases e,
+{
+    assert(has_weight(s1, a, lp, e) == s1.weights@.dom().contains((a, lp, e)));
+    assert(has_weight(s0, a, lp, e) == s0.weights@.dom().contains((a, lp, e)));
+    if !has_weight(s0, a, lp, e) && e > 0 { lemma_eff_frame(s0, s1, a, lp, (e - 1) as u64); }
+}
+
 // @lemma sync_never_backdates_a_later_weight [C06,C07]
 /// C06/C07: a claim bounded by `until` must not change the weight in effect at any epoch >= until. The hypotheses are exactly
 /// what sync_address_lp_weight_history(.., until, true) is PROVED to establish (nothing before until, the weight in effect
